@@ -55,6 +55,7 @@ func H_C07_implicit() {
 	vrt.Assume(vrt.Or(ta, tb))
 	a, ae := mk("x", da, ta)
 	b, be := mk("y", db, tb)
+	maybeUsedTogether(a, b)
 	if op == "Div" {
 		for k := range be {
 			vrt.Assume(be[k] != 0)
@@ -103,6 +104,7 @@ func H_C07_dot() {
 	vrt.Assume(vrt.Or(ta, tb))
 	a, ae := mk("x", da, ta)
 	b, be := mk("y", db, tb)
+	maybeUsedTogether(a, b)
 	y, err := a.Dot(b)
 	vrt.Assert("valid dot accepted", err == nil)
 	if err != nil {
@@ -133,6 +135,7 @@ func H_C07_matmul() {
 	vrt.Assume(vrt.Or(ta, tb))
 	a, ae := mk("x", da, ta)
 	b, be := mk("y", db, tb)
+	maybeUsedTogether(a, b)
 	y, err := a.MatMul(b)
 	vrt.Assert("valid matmul accepted", err == nil)
 	if err != nil {
